@@ -18,6 +18,7 @@ RULE = (
     "of time scheme, Get_K_C_M_F, Solve, Save_Iter, Set_Iter. The harness keeps a declarative model of the final "
     "configuration and after every step builds a fresh simulation from it. Non-trivial = an invalidating change applied "
     "after the matrices were built at least once; distinct = sha1 of the history."
+    ' phasefield_history: parameter / mesh modifications of a PhaseField simulation with an injected (u, d) state, matrices of both problems and energies vs a fresh simulation (non-trivial = a modification after a first read). inelastic_history: plastic steps committed, mesh replaced (same or other size), first step vs a new simulation (non-trivial = plastic flow before the replacement).'
 )
 ASSUMPTIONS = [
     "reference = a new simulation built from the declarative model (new law object, new Mesh object rebuilt from arrays, "
